@@ -217,7 +217,13 @@ func doGen(id string, p Prop, tier string, seed int64, out string, nshards int) 
 			}
 			sum.ShardLens[k]++
 			sum.Events++
-			if c := p.Class(e); c != "" {
+			// coverage class of the event; an event that panicked (or was skipped after a panic) may lack the
+			// observations Class looks at, so classification itself must never abort the run
+			c := ""
+			if guard(func() { c = p.Class(e) }) != "" {
+				c = "unclassified-after-panic"
+			}
+			if c != "" {
 				if sum.Classes[c] == 0 && len(sum.Samples) < 6 {
 					sum.Samples = append(sum.Samples, e)
 				}
